@@ -34,12 +34,13 @@ claimed["C01"] = dict(
 
 T = "bounded symbolic execution of go/ssa + SMT (z3, QF_BV), differential against reference model, native replay"
 claimed["C08"] = dict(
-    text="Obligations (a) soundness, (b) completeness and (c) priority of the trailing-slash recommendation: bounded symbolic "
-         "execution of the real lookup code on corpus routers against the reference R-tsr (priority DFS on the slash-toggled "
-         "path, host mode first): for every Host and path within the bounds a recommendation is made exactly when a route "
-         "matches the adjusted path and no route matches directly, for the highest-priority such route, with the parameters "
-         "of the adjusted match. Obligations (d) dispatch, (e) Location and (f) irrelevance are not yet covered by this check "
-         "(see DESIGN.md).",
+    text="All six obligations by bounded symbolic execution of the real code: (a) soundness, (b) completeness, (c) priority "
+         "of the trailing-slash recommendation against the reference R-tsr (priority DFS on the slash-toggled path, host "
+         "mode first); (d) dispatch in ServeHTTP for GET/POST/CONNECT under five ignore/redirect configurations (served by "
+         "the route with the adjusted parameters / 301 or 308 only for clean paths / otherwise unmatched); (e) the Location "
+         "header, resolved by an RFC 3986 section 5.2 reference resolver in the harness, has the same authority, no "
+         "fragment, decodes to the slash-adjusted path and keeps the raw query, for every path byte incl. reserved "
+         "characters; (f) an extra route matching neither the path nor its adjusted form changes nothing (A/B).",
     design="5 C08", technique=T)
 claimed["C09"] = dict(
     text="Bounded symbolic execution of the real lookup (incl. netutil.StripHostPort and net.SplitHostPort from source) for "
